@@ -51,11 +51,12 @@ func (its *Timestamp) ToString() string {
 	return b.String()
 }
 
-// Hash returns the string hash of timestamp.
-// DON'T change this because protocol can be broken : TODO: this can be improved.
+// Hash returns the string hash of timestamp. It is only used as a key of in-memory maps (it is never stored
+// or sent), and distinct timestamps must have distinct hashes: the fields are separated, because without
+// separators lamport 2 with delimiter 11 and lamport 21 with delimiter 1 are rendered alike.
 func (its *Timestamp) Hash() string {
 	var b strings.Builder
-	_, _ = fmt.Fprintf(&b, "%d%d%d%s", its.Era, its.Lamport, its.Delimiter, its.CUID)
+	_, _ = fmt.Fprintf(&b, "%d:%d:%d:%s", its.Era, its.Lamport, its.Delimiter, its.CUID)
 	return b.String()
 }
 
